@@ -169,7 +169,11 @@ theorem C09_union_algebra (a b : List Text) (x : Text) :
   · rw [mem_unionTexts, mem_unionTexts]; exact Or.comm
   · rw [mem_unionTexts]; exact or_self_iff
 
--- non-vacuity: a history of one failed step is good whatever the text
+-- Non-vacuity.  `GoodRun` is inhabited trivially by the empty history; that it is inhabited by real histories is
+-- shown at run time: `stepGood` consists of decidable parts that involve the well-founded regex matcher (which
+-- `decide` does not unfold), so the compiled driver evaluates them after every step of every history of the
+-- `history` stream (op `c09step`): they hold on roughly 90 of the ~450 steps of a quick run, and there the real
+-- file must show the conclusion of C09_step_partial.
 example (t : Text) : GoodRun id t [] := GoodRun.nil t
 
 end C09
